@@ -3249,6 +3249,11 @@ public:
           operator-=(x);
           assert(!is_bottom());
           m_vert_map.insert(vmap_elt_t(x, {v, w}));
+        } else {
+          // No octagon constraint can be extracted from the
+          // assignment: x only keeps the interval of e (as split_dbm
+          // does). Without this the old constraints on x survived.
+          set(x, x_int);
         }
       }
     }
